@@ -133,6 +133,51 @@ func init() {
 		}
 		return sx.L(sx.Sym("ok"), sx.L(rows...))
 	})
+	// creqseq: ((sys text (cand...) table)...) -> ("ok" ((mr...) (direct...))...)
+	// A SEQUENCE of resolve.MatchRequirement calls executed in order inside one handler
+	// invocation (sys is the semver.System number of npm, Maven or PyPI).  mr = membership of
+	// each candidate in the result of MatchRequirement; direct = what the semver package
+	// answers for the same (system, requirement, candidate) without going through resolve:
+	// ParseConstraint + Constraint.Match, or string equality when the requirement does not parse.
+	// Any state kept between calls shows as a call whose answer depends on its predecessors.
+	register("creqseq", func(a sx.V) sx.V {
+		var out []sx.V
+		for _, call := range a.List() {
+			sys := sysOf(call.Nth(0))
+			text := call.Nth(1).Str()
+			cands := call.Nth(2).List()
+			rsys := resolve.NPM
+			switch sys {
+			case semver.Maven:
+				rsys = resolve.Maven
+			case semver.PyPI:
+				rsys = resolve.PyPI
+			}
+			var vs []resolve.Version
+			for _, t := range cands {
+				vs = append(vs, resolve.Version{VersionKey: resolve.VersionKey{
+					PackageKey: resolve.PackageKey{System: rsys, Name: "p"}, VersionType: resolve.Concrete, Version: t.Str()}})
+			}
+			req := resolve.VersionKey{PackageKey: resolve.PackageKey{System: rsys, Name: "p"},
+				VersionType: resolve.Requirement, Version: text}
+			in := map[string]bool{}
+			for _, m := range resolve.MatchRequirement(req, vs) {
+				in[m.Version] = true
+			}
+			c, err := sys.ParseConstraint(text)
+			var mr, direct []sx.V
+			for _, t := range cands {
+				mr = append(mr, sx.Int(csBit(in[t.Str()])))
+				if err != nil {
+					direct = append(direct, sx.Int(csBit(t.Str() == text)))
+				} else {
+					direct = append(direct, sx.Int(csBit(c.Match(t.Str()))))
+				}
+			}
+			out = append(out, sx.L(sx.L(mr...), sx.L(direct...)))
+		}
+		return sx.L(sx.Sym("ok"), sx.L(out...))
+	})
 	// setop: (sys textA textB (probe...) table) ->
 	//   ("err") | ("ok" A B U I U' I' (row...))
 	// U = A union B, I = A intersect B, U' = B union A, I' = B intersect A; A, B and the results are
